@@ -45,6 +45,8 @@ type base struct {
 	prop string
 	// c14: the run is made on behalf of property C14 (see violate).
 	c14 bool
+	// c12: the run is made on behalf of property C12 (see violate).
+	c12 bool
 	// faultFree disables every fault option for the whole run.
 	faultFree bool
 	// faulted records, per actor name, that a storage fault was injected
@@ -77,6 +79,19 @@ func (b *base) violate(rule, msg string) {
 			} else {
 				b.r.Count("other_property_rule:"+rule, 1)
 			}
+		}
+		return
+	}
+	if b.c12 {
+		// The naive input root histories also decide one rule of C12
+		// (nothing of an ended action is still being written).
+		switch {
+		case rule == "C17/download-outlives-merge":
+			b.k.Violate("C12/download-outlives-merge", msg)
+		case len(rule) > 6 && rule[:6] == "panic:":
+			b.k.Violate(rule, msg)
+		default:
+			b.r.Count("other_property_rule:"+rule, 1)
 		}
 		return
 	}
